@@ -359,6 +359,8 @@ class Verifier:
                 s.add(a)
             for a in smt.seq_axioms():
                 s.add(a)
+            for f in ex.clock_facts:
+                s.add(f)
             for f in o.pc:
                 s.add(f)
             s.add(z3.Not(o.goal))
@@ -390,6 +392,8 @@ class Verifier:
                         s3.add(a)
                     for a in smt.seq_axioms():
                         s3.add(a)
+                    for f in ex.clock_facts:
+                        s3.add(f)
                     for f in o.pc:
                         s3.add(f)
                     for h in hyp:
